@@ -6,7 +6,7 @@ V = os.path.dirname(os.path.dirname(os.path.abspath(__file__)))
 sys.path.insert(0, os.path.join(V, "tools"))
 import selftest
 
-man = json.load(open(os.path.join(V, "selftest", "manifest.json")))
+man = json.load(open(os.environ.get("PFZ_SELFTEST_MANIFEST") or os.path.join(V, "selftest", "manifest.json")))
 only = set(sys.argv[1:])
 jobs = []
 for m in man["mutants"]:
